@@ -59,3 +59,15 @@ broadcast proof fn b_strs_one(v: Seq<&String>)
     requires v.len() == 1
     ensures #[trigger] jsonwebtoken::ref_strings(v) == seq![v[0]@]
 { assert(jsonwebtoken::ref_strings(v) =~= seq![v[0]@]); }
+broadcast proof fn b_ref_strs_one(v: Seq<&str>)
+    requires v.len() == 1
+    ensures #[trigger] jsonwebtoken::ref_strs(v).to_set() == set![v[0]@]
+{
+    assert(jsonwebtoken::ref_strs(v) =~= seq![v[0]@]);
+    assert(seq![v[0]@].to_set() =~= set![v[0]@]) by {
+        assert forall|x: Seq<char>| seq![v[0]@].to_set().contains(x) == set![v[0]@].contains(x) by {
+            if seq![v[0]@].contains(x) { let i = choose|i: int| 0 <= i < 1 && seq![v[0]@][i] == x; }
+            if x == v[0]@ { assert(seq![v[0]@][0] == x); }
+        }
+    }
+}
